@@ -296,6 +296,6 @@ def run(tier):
                        "Not decided: what an MPI implementation does with the message.")
     rep.trusted = ["clang 14 -O2 (normaliser)", "the type-map algebra of MPI-3.1 section 4.1 as encoded in checks/c18.py (interpret)", "vlib/irval.py, vlib/poly.py",
                    "Open MPI's mpi.h (handles are pointers to global objects)"]
-    rep.assumptions = ["positive strides and non-empty views (MPI counts / strides of empty or reversed views are outside the adaptor's documented use)",
+    rep.assumptions = ["M18.map / M18.life: positive strides and non-empty views (reversed views are outside the adaptor's use); the array without elements is M18.silent",
                        "sizeof(double) = 8 as the value returned by MPI_Type_size for MPI_DOUBLE"]
     return rep
